@@ -305,11 +305,17 @@ func (e *c02Env) runScript(sc c02Script, rep int) (string, map[string]interface{
 		time.Sleep(40 * time.Millisecond)
 	case "host-remove":
 		bg.Add(1)
-		go func() { defer bg.Done(); e.s.Op(8*time.Second, "host_remove", e.svc.Name, map[string]interface{}{"hosts": hosts[:1]}) }() // may block until the held goroutine is released
+		go func() {
+			defer bg.Done()
+			e.s.Op(8*time.Second, "host_remove", e.svc.Name, map[string]interface{}{"hosts": hosts[:1]})
+		}() // may block until the held goroutine is released
 		time.Sleep(60 * time.Millisecond)
 	case "host-replace":
 		bg.Add(1)
-		go func() { defer bg.Done(); e.s.Op(8*time.Second, "host_replace", e.svc.Name, map[string]interface{}{"hosts": hosts}) }()
+		go func() {
+			defer bg.Done()
+			e.s.Op(8*time.Second, "host_replace", e.svc.Name, map[string]interface{}{"hosts": hosts})
+		}()
 		time.Sleep(60 * time.Millisecond)
 	case "client-closes":
 		conn.Close()
